@@ -25,7 +25,8 @@ Inductive rerr :=
 | EHashMismatch    (* "hash check failed for %q" *)
 | EFileMissing     (* "file missing for %q" *)
 | EGzipTrailer     (* concludeGzipRead: checksum error or trailing bytes *)
-| ENotInArchive.   (* "file %q is not in the archive": hashes matched but a hashed file never appeared *)
+| ENotInArchive    (* "file %q is not in the archive": hashes matched but a hashed file never appeared *)
+| ESumsScan.       (* bufio.Scanner error (s.Err(), a SHA256SUMS line longer than 64 KiB) *)
 
 Inductive result (A : Type) := Ok (a : A) | Err (e : rerr).
 Arguments Ok {A} a.
@@ -50,8 +51,13 @@ Section Archive.
   (* SHA256SUMS codec: one entry per scanned line, [None] = Sscanf error. *)
   Variable print_sums : list (digest * string) -> bytes.
   Variable parse_sums : bytes -> list (option (digest * string)).
+  (* [scan_err b]: bufio.Scanner stopped on [b] with an error (bufio.ErrTooLong); [parse_sums b]
+     then holds the lines scanned before it. *)
+  Variable scan_err : bytes -> bool.
 
-  (* ---- write ---- *)
+  (* ---- write ----
+     [s] is the payload the writer copies: the first [metadata.Size] bytes of the snapshot
+     reader (io.CopyN); raft sets Size to the length of the snapshot. *)
   Definition sums_lines (ord : bool) (m : Meta) (s : bytes) : list (digest * string) :=
     if ord then [(H (enc_meta m), n_meta); (H s, n_state)]
     else [(H s, n_state); (H (enc_meta m), n_meta)].       (* Go map order *)
@@ -109,7 +115,9 @@ Section Archive.
   Definition decode_and_verify (a : acc) : result unit :=
     match verify_lines a (parse_sums (a_sums a)) [] with
     | Err e => Err e
-    | Ok seen => if mem_str n_meta seen && mem_str n_state seen then Ok tt else Err EFileMissing
+    | Ok seen =>
+      if scan_err (a_sums a) then Err ESumsScan else        (* s.Err() after the loop *)
+      if mem_str n_meta seen && mem_str n_state seen then Ok tt else Err EFileMissing
     end.
 
   (* [read]: members, then the terminator, then the integrity check.
@@ -144,3 +152,80 @@ Section Archive.
     | Err _ => None
     end.
 End Archive.
+
+(* ---- a decidable over-approximation test for "one corruption" between two member views ----
+   [corruptb L L' t]: the view (L', t) is one step of Proofs.corrupt away from L (or is L itself,
+   which is the identity permutation).  Soundness is Decide.corruptb_sound.  Evaluated by
+   Run/C20.v on every generated (intact view, damaged view) pair. *)
+Definition member_eqb (a b : member) : bool :=
+  String.eqb (m_name a) (m_name b) && bytes_eqb (m_data a) (m_data b) && Bool.eqb (m_intact a) (m_intact b).
+
+Definition mlist_eqb : list member -> list member -> bool := list_eqb member_eqb.
+
+(* [L'] is a prefix of [L]; [strict]: a proper one *)
+Fixpoint prefixb (strict : bool) (L' L : list member) : bool :=
+  match L', L with
+  | [], [] => negb strict
+  | [], _ :: _ => true
+  | x :: l', y :: l => member_eqb x y && prefixb strict l' l
+  | _ :: _, [] => false
+  end.
+
+(* [L'] is [L] without one of its members *)
+Fixpoint removed1 (L L' : list member) : bool :=
+  match L with
+  | [] => false
+  | x :: l =>
+    mlist_eqb l L' ||
+    match L' with
+    | y :: l' => member_eqb x y && removed1 l l'
+    | [] => false
+    end
+  end.
+
+(* same length, exactly one position differs, and there [ok old new] holds *)
+Fixpoint changed1 (ok : member -> member -> bool) (L L' : list member) : bool :=
+  match L, L' with
+  | x :: l, y :: l' => (ok x y && mlist_eqb l l') || (member_eqb x y && changed1 ok l l')
+  | _, _ => false
+  end.
+
+Definition ok_data (x y : member) : bool :=
+  String.eqb (m_name x) (m_name y) && m_intact y && negb (bytes_eqb (m_data x) (m_data y)).
+Definition ok_rename (x y : member) : bool :=
+  negb (String.eqb (m_name y) (m_name x)) && m_intact y && bytes_eqb (m_data x) (m_data y).
+
+Fixpoint remove_first (x : member) (l : list member) : option (list member) :=
+  match l with
+  | [] => None
+  | y :: r => if member_eqb x y then Some r
+              else match remove_first x r with Some r' => Some (y :: r') | None => None end
+  end.
+
+Fixpoint permb (L L' : list member) : bool :=
+  match L with
+  | [] => match L' with [] => true | _ => false end
+  | x :: l => match remove_first x L' with Some r => permb l r | None => false end
+  end.
+
+(* [L' = pre ++ [Member (m_name mb) d false]] with [L = pre ++ mb :: post] *)
+Fixpoint truncmb (L L' : list member) : bool :=
+  match L, L' with
+  | x :: l, y :: l' =>
+    match l' with
+    | [] => String.eqb (m_name x) (m_name y) && negb (m_intact y)
+    | _ => member_eqb x y && truncmb l l'
+    end
+  | _, _ => false
+  end.
+
+Definition corruptb (L L' : list member) (t : bool) : bool :=
+  if t then
+    changed1 ok_data L L' || prefixb true L' L || removed1 L L' || removed1 L' L
+    || permb L L' || changed1 ok_rename L L'
+  else prefixb false L' L || truncmb L L'.
+
+(* the gzip level: the stream may be damaged in several places at once; every view that is not
+   a member-level corruption is one the reader refuses for a reason visible in the view itself *)
+Definition faultb (L : list member) (hdr : bool) (L' : list member) (t trailer : bool) : bool :=
+  negb hdr || negb trailer || negb t || existsb (fun mb => negb (m_intact mb)) L' || corruptb L L' t.
